@@ -118,6 +118,18 @@ void RefOperator::build(const PolarGrid& grid, const DomainGeometry& geo, const 
             add(row, b, -wb);
             add(row, t, -wt);
             add(row, c, wl + wr + wb + wt);
+            if (i == 0) {
+                // Across the origin the edge (0,j)-(0,j+ntheta/2) is seen with the angular spacings at j by one node
+                // and at j+ntheta/2 by the other.  They are equal only up to the rounding of the stored angles
+                // (|d theta| <= 4 eps * 2 pi each), so the edge coefficient carries a relative uncertainty
+                // u = 4 * (4 eps 2 pi) / (k1 + k2) whichever node's spacing an implementation uses.  It is folded into
+                // the termwise magnitudes (which every rounding bound multiplies by >= 48 eps).
+                const double u      = 4.0 * (4.0 * 2.220446049250313e-16 * 2.0 * M_PI) / (k1 + k2);
+                const double weight = wl * u / (48.0 * 2.220446049250313e-16);
+                for (size_t q = 0; q < row.col.size(); q++)
+                    if (row.col[q] == l || row.col[q] == c)
+                        row.aval[q] += weight;
+            }
             // mixed derivative terms
             if (i > 0) {
                 add(row, bl, -0.25 * art[l]);
